@@ -20,6 +20,7 @@ func init() {
 			"Not decided: sonic's and the server's fidelity for 64-bit values (trusted), custom Metadata implementations.",
 		Assumptions: []string{"sonic Marshal/Unmarshal round-trip uint64 and string fields with distinct tags", "gocbcore.OpenStream's parameter names denote what they say"},
 		Rules: []RuleDef{
+			{ID: "C02.R29", Text: "with auto-reset latest every vBucket is requested at its high seqNo or the start stops: the latest-start callback evaluated whole — a fail-over log error is fatal, the position is stored once under the same key (same rule as C01.R21)", Run: latestStartMarked},
 			{ID: "C02.R1", Text: "Client.OpenStream passes vbUUID, startSeqNo, endSeqNo, snapStartSeqNo, snapEndSeqNo, vbID, evtHandler from the like-named offset fields / own parameters (conversions only)", Run: c02r1},
 			{ID: "C02.R2", Text: "Save table (offset→document) and Load table (document→offset) are mutually inverse on the four checkpoint fields; every ranged entry is dumped; loaded documents are not modified in place", Run: c02r2},
 			{ID: "C02.R3", Text: "serialisation symmetry: same document type, exported fields with distinct JSON tags, same xattr path / id expressions on write and read; file backend reads what it writes", Run: c02r3},
